@@ -142,6 +142,10 @@ impl FreezerFiles {
             let next_id = head_id + 1;
             let new_head_file = self.open_truncated(next_id)?;
 
+            // the old head is never written or synced again: `sync_all` only reaches the
+            // current head, so make its content durable before letting go of it
+            self.head.file.sync_all()?;
+
             // release old head, reopen with read only
             self.release(head_id);
             self.open_read_only(head_id)?;
